@@ -2,7 +2,7 @@ package p2pke
 
 // C08 (p2pke part): no packet makes the message parsers, a session or a channel panic.
 
-//verif: replay=none cover=accepted,rejected bounds="every packet of 0..8 bytes: ParseMessage, header accessors, the Is* classifiers and parseInitHello's length arithmetic (protobuf decoding is an engine model)"
+// verif: replay=none cover=accepted,rejected bounds="every packet of 0..8 bytes: ParseMessage, header accessors, the Is* classifiers and parseInitHello's length arithmetic (protobuf decoding is an engine model)"
 func VH_C08_p2pkeParse() bool {
 	x := vBytes(8)
 	_ = IsInitHello(x)
@@ -22,7 +22,7 @@ func VH_C08_p2pkeParse() bool {
 	return true
 }
 
-//verif: replay=none unwind=130 cover=stepped bounds="Session.Deliver from every (role, handshake index) with any 32-bit counter and 0..3 body bytes: no panic (Noise/protobuf/asn1 leaves are engine models)"
+// verif: replay=none unwind=130 cover=stepped bounds="Session.Deliver from every (role, handshake index) with any 32-bit counter and 0..3 body bytes: no panic (Noise/protobuf/asn1 leaves are engine models)"
 func VH_C08_p2pkeSessionDeliver() bool {
 	s := vHsSession()
 	s.Deliver(nil, vPacket(vU32(), vBytes(3)), vT(5))
@@ -31,7 +31,7 @@ func VH_C08_p2pkeSessionDeliver() bool {
 	return true
 }
 
-//verif: replay=none time=concrete unwind=130 cover=stepped bounds="Channel.Deliver from an arbitrary invariant state with any packet of 0..6 bytes (counter below 80 when well-formed): no panic"
+// verif: replay=none time=concrete unwind=130 cover=stepped bounds="Channel.Deliver from an arbitrary invariant state with any packet of 0..6 bytes (counter below 80 when well-formed): no panic"
 func VH_C08_p2pkeChannelDeliver() bool {
 	e := vChannel()
 	x := vBytes(6)
